@@ -465,7 +465,7 @@ func (c *Conn) Read(p []byte) (int, error) {
 	c.BytesRead += n
 	c.ns.unlock()
 	raceAcquire(unsafe.Pointer(c.in)) // delivery edge, published outside the race-disabled region
-	s.poke() // a blocked writer may have room now
+	s.poke()                          // a blocked writer may have room now
 	return n, nil
 }
 
@@ -612,7 +612,8 @@ func (c *Conn) CloseWrite() error {
 }
 
 //go:norace
-func (c *Conn) LocalAddr() net.Addr  { return c.local }
+func (c *Conn) LocalAddr() net.Addr { return c.local }
+
 //go:norace
 func (c *Conn) RemoteAddr() net.Addr { return c.remote }
 
